@@ -29,6 +29,8 @@ ZOO = {
     'z10_roots_r':   'R[C[..]R[..].]',                                            # resumable root
     'z11_roots_n':   'N[.C[..]R[..]]',                                            # random root (first activation draws)
     'z12_roots_s':   's[.C[..]O[..]]',                                            # headless selectable root
+    'z13_res_util':  'C[U[R[.C[..]N[..]].]N[R[C[..]S[..]]u[..]].R[.U[..]]]',      # resumable regions with region-valued sub-states under utilitarian / random regions
+    'z14_mix':       'R[S[N[..]R[.C[..]]]O[R[.C[..]]U[R[..].]].]',                # resumable root, random under selectable, resumable under orthogonal and utilitarian
 }
 
 
@@ -64,6 +66,7 @@ WALKERS = [
     walker('z09_headless', 'm'),
     walker('z10_roots_r', 'm'), walker('z11_roots_n', ''), walker('z11_roots_n', 'mr'), walker('z12_roots_s', 'm'),
     walker('z03_orthoroot', 'mp1'), walker('z06_plans', 'p2'), walker('z08_wide', 'bp3'), walker('z11_roots_n', 'r'), walker('z04_nested', 'r'),
+    walker('z13_res_util', 'm'), walker('z13_res_util', 'bp1'), walker('z14_mix', 'm'), walker('z14_mix', ''),
 ]
 PAYLOAD_WALKERS = [w['name'] for w in WALKERS if 'HV_PAYLOAD' in ' '.join(w['defines'])]
 MANUAL_WALKERS = [w['name'] for w in WALKERS if 'HV_MANUAL' in w['defines'] and 'HV_RNG_BUILTIN' not in w['defines']]
@@ -255,12 +258,38 @@ PROPS = {
 }
 
 
+def seeded_walkers(seed, k=12):
+    """thorough tier: k machine structures drawn from VERIF_SEED (manual activation, default configuration)"""
+    import random, structgen
+    rng = random.Random(seed * 1000003 + 17)
+    out = []
+    for i in range(k):
+        spec = structgen.random_spec(rng, max_states=34, max_depth=4, max_width=6)
+        name = 'rnd_%d_%02d' % (seed, i)
+        ZOO[name] = spec
+        w = walker(name, 'm' if i % 3 else 'b')
+        UNITS[w['name']] = w
+        out.append(w)
+    return out
+
+
+def uses_walkers(prop):
+    return PROPS[prop].get('bins') is WALKER_NAMES or PROPS[prop].get('bins') == WALKER_NAMES
+
+
 def specs_for(prop, tier, seed):
-    return [UNITS[b] for b in PROPS[prop]['bins']]
+    specs = [UNITS[b] for b in PROPS[prop]['bins']]
+    if tier == 'thorough' and uses_walkers(prop):
+        specs += seeded_walkers(seed)
+    return specs
 
 
 def jobs_for(prop, tier, seed):
-    return [dict(j) for j in PROPS[prop].get(tier, [])]
+    jobs = [dict(j) for j in PROPS[prop].get(tier, [])]
+    if tier == 'thorough' and uses_walkers(prop):
+        cases = jobs[0]['cases'] if jobs else 10000
+        jobs += walk_jobs([w['name'] for w in seeded_walkers(seed)], cases, 60)
+    return jobs
 
 
 NOT_APPLICABLE = {}
